@@ -107,3 +107,8 @@ CHECKS.update({
     "C17": ("6/C17", "Streams of 1-4 events (with/without internal events) in a real MemoryWorkflowStore, served by the real _WorkflowAPI._stream_events for whatever cursor the client sends; the real WorkflowClient.get_workflow_events over httpx.MockTransport on the virtual loop with httpx.ReadError at every byte offset of the response (1 drop; every pair of offsets for 2 consecutive drops on the smaller configurations), chunk sizes 1/7/whole, heartbeat comments interleaved, every numeric start cursor, and 1-4 consecutive connection failures; yielded events and last_sequence at every yield compared with 'each event after the cursor once, in order'.",
             "No ASGI/TCP transport (MockTransport + Request holder). Completed runs only (a live run's stream never ends).", FAULT_TECH),
 })
+
+CHECKS.update({
+    "C28": ("6/C28", "Every starting schema {fresh; schema_migrations recorded up to k=1..N; legacy PRAGMA user_version=k without the bookkeeping table} x 1..3 consecutive run_migrations() calls x {caller commits / only closes} x {connection reused / new connection per run} on real DB files with the repository's migration files; normalized sqlite_master + table_info, schema_migrations rows and a pre-existing data row, read through a separate connection after every run, compared with a freshly migrated database.",
+            "The space is finite and enumerated completely (108 histories for 4 migrations).", ENUM_TECH),
+})
